@@ -972,6 +972,18 @@ func multi[E elem](c *gal.Ctx, n int, wmin, wmax uint64, design runCfg, variant 
 		}
 	case "ends":
 		p.targets = [][]E{tgt(top, 0), tgt(top, amount-1)}
+	case "tail": // the very last IDs: inside the remainder amount % workers that only the last worker covers
+		rem := amount % uint64(len(sl))
+		ids := []uint64{amount - 1}
+		if rem >= 2 {
+			ids = append(ids, amount-2, amount-rem)
+		}
+		if c.Rng.Intn(2) == 0 {
+			ids = ids[:1]
+		}
+		for _, id := range ids {
+			p.targets = append(p.targets, tgt(top, id))
+		}
 	case "first-of-all-but-one": // slice j has its only satisfying value at its last ID
 		for i, s := range sl {
 			if i == j {
@@ -1089,6 +1101,52 @@ func main() {
 	multi[bool](c, 29, 3, 4, runCfg{gomax: 2}, "lower-too", []runCfg{{gomax: 2, initMode: 2, initN: 1}, {gomax: 2, initMode: 2, initN: 2}}, "multi-bools")
 	// 16 workers, the only satisfying values at the last ID of every slice
 	multi[bool](c, 46, 4, 4, runCfg{gomax: 16, jitter: 1}, "last-of-all", nil, "multi-bools")
+	// maxConcurrency strictly below the natural worker count, on spaces whose size is not a multiple of
+	// it: the last worker must take the remainder.  Nothing satisfies (every ID must be offered), and
+	// satisfying values only at the very last IDs.
+	type cspace struct {
+		bytes bool
+		n     int
+		d     uint64
+	}
+	cspaces := []cspace{{false, 63, 3}, {false, 36, 4}, {false, 38, 4}, {false, 39, 4}, {false, 40, 4}, {true, 5, 4}, {false, 42, 4}}
+	for _, mc := range []uint{2, 3, 5, 7} {
+		var fit []cspace
+		for _, sp := range cspaces {
+			bits := int64(sp.n)
+			if sp.bytes {
+				bits *= 8
+			}
+			am := binom(bits, int64(sp.d)).Uint64()
+			if am/10000 > uint64(mc) && am%uint64(mc) != 0 {
+				fit = append(fit, sp)
+			}
+		}
+		if len(fit) == 0 {
+			panic("harness: no space for maxConcurrency cap")
+		}
+		nsc := c.Scale(1, 3)
+		for k := 0; k < nsc; k++ {
+			sp := fit[(k+c.Rng.Intn(len(fit)))%len(fit)]
+			if k == 0 {
+				sp = fit[0] // the cheapest one always
+			}
+			g := []int{16, 61, 64}[c.Rng.Intn(3)]
+			for _, variant := range []string{"none", "tail"} {
+				design := runCfg{gomax: g, maxConc: mc, jitter: c.Rng.Intn(4)}
+				others := []runCfg{{gomax: 16, maxConc: 0}}
+				wmin := sp.d
+				if variant == "tail" && c.Rng.Intn(2) == 0 {
+					wmin = sp.d - 1 - uint64(c.Rng.Intn(2))
+				}
+				if sp.bytes {
+					multi[byte](c, sp.n, wmin, sp.d, design, variant, others, "capped-bytes")
+				} else {
+					multi[bool](c, sp.n, wmin, sp.d, design, variant, others, "capped-bools")
+				}
+			}
+		}
+	}
 	// ---- F4: 64 items, distance 4: up to 63 workers ----
 	for _, g := range []int{64, 61, 16} {
 		multi[bool](c, 64, 4, 4, runCfg{gomax: g}, "first-of-all", []runCfg{{gomax: g, maxConc: 5}}, "wide-bools")
